@@ -39,8 +39,8 @@ Positions == (0..K - 1) \X (1..Len(Is))
 SweepSet == {AddrOf(q[1], Is[q[2]]) : q \in Positions}
 
 CC == [session |-> C.session, svc |-> C.svc, data |-> C.data, check |-> C.check]
-EE == [tab |-> {<<C.session, a, M.ans[a]>> : a \in SweepSet},
-       dflt |-> {<<s, OtherCode>> : s \in {1, 2, 3} \ {C.session}}]
+EE == [fn |-> [x \in {C.session} \X SweepSet |-> M.ans[x[2]]],
+       dflt |-> [s \in {1, 2, 3} \ {C.session} |-> OtherCode]]
 
 Init ==
   /\ C \in Cfgs
